@@ -1,7 +1,8 @@
 /-
-C17 — executable model of `RefCountPtr<T>` (src/kernel/memory/givpointer.h): slots hold (object, counter) pairs; objects
-are identified by the value given at construction (the harness uses distinct values). Tied by correspondence only.
-Core Lean only.
+C17 — executable model of `RefCountPtr<T>` (src/kernel/memory/givpointer.h): a slot holds a pointer to an object and to
+its counter cell (both created by the constructor from a raw pointer); objects are numbered in order of creation and
+remember the value they were constructed with.  `Props/C17.lean` shows that this is the one-cell special case of the
+Array0 model (`refcountptr_is_one_block_array0`).  Core Lean only.
 -/
 namespace Givaro.Model.RefPtr
 
@@ -9,8 +10,10 @@ structure St where
   slot  : Nat → Option Nat      -- the object (and its counter cell) a slot points to
   cnt   : Nat → Int             -- `*_count` of an object
   alive : Nat → Bool            -- the object has not been deleted
+  val   : Nat → Nat             -- what the object was constructed with
+  next  : Nat                   -- number of objects created
 
-def St.init : St := { slot := fun _ => none, cnt := fun _ => 0, alive := fun _ => false }
+def St.init : St := { slot := fun _ => none, cnt := fun _ => 0, alive := fun _ => false, val := fun _ => 0, next := 0 }
 
 def updR {β : Type} (f : Nat → β) (i : Nat) (v : β) : Nat → β := fun j => if j = i then v else f j
 
@@ -20,12 +23,19 @@ def release (s : St) (o : Nat) : St :=
   { s with cnt := updR s.cnt o v, alive := if v = 0 then updR s.alive o false else s.alive }
 
 inductive Op where
-  | new (k v : Nat) | copy (k j : Nat) | assign (k j : Nat) | del (k : Nat)
+  | new (k v : Nat)        -- `if (!S[k]) S[k] = new RefCountPtr(new T(v))`
+  | copy (k j : Nat)       -- `if (S[k] && !S[j]) S[j] = new RefCountPtr(*S[k])`
+  | assign (k j : Nat)     -- `if (S[k] && S[j]) *S[j] = *S[k]`
+  | del (k : Nat)          -- `delete S[k]; S[k] = 0`
+
+def Op.slots : Op → List Nat
+  | .new k _ => [k] | .copy k j => [k, j] | .assign k j => [k, j] | .del k => [k]
 
 def step (s : St) : Op → St
   | .new k v => match s.slot k with
     | some _ => s
-    | none => { slot := updR s.slot k (some v), cnt := updR s.cnt v 1, alive := updR s.alive v true }
+    | none => { slot := updR s.slot k (some s.next), cnt := updR s.cnt s.next 1, alive := updR s.alive s.next true,
+                val := updR s.val s.next v, next := s.next + 1 }
   | .copy k j => match s.slot k, s.slot j with
     | some o, none => { s with slot := updR s.slot j (some o), cnt := updR s.cnt o (s.cnt o + 1) }
     | _, _ => s
@@ -39,7 +49,9 @@ def step (s : St) : Op → St
     | none => s
     | some o => { (release s o) with slot := updR s.slot k none }
 
+def run (s : St) (ops : List Op) : St := ops.foldl step s
+
 /-- number of live objects -/
-def liveCount (s : St) (ids : List Nat) : Nat := (ids.eraseDups.filter (fun o => s.alive o)).length
+def liveCount (s : St) : Nat := ((List.range s.next).filter (fun o => s.alive o)).length
 
 end Givaro.Model.RefPtr
